@@ -24,15 +24,19 @@ type Solver struct {
 	dead    bool
 }
 
+// SolverMemoryMB caps one solver process (16 workers x 3 GB stays below the machine's memory); a solver
+// that hits the cap dies or errors out, which is reported as unknown, never as an answer.
+var SolverMemoryMB = 3000
+
 // SolverCmd returns the command line for a named back end.
 func SolverCmd(name string, timeoutMs int) []string {
 	switch name {
 	case "z3":
-		return []string{"z3", "-in", fmt.Sprintf("-t:%d", timeoutMs)}
+		return []string{"z3", "-in", fmt.Sprintf("-t:%d", timeoutMs), fmt.Sprintf("-memory:%d", SolverMemoryMB)}
 	case "cvc5":
 		return []string{"cvc5", "--incremental", "--strings-exp", "--lang=smt2", fmt.Sprintf("--tlimit-per=%d", timeoutMs), "--produce-models"}
 	default:
-		return []string{"z3-new", "-in", fmt.Sprintf("-t:%d", timeoutMs)}
+		return []string{"z3-new", "-in", fmt.Sprintf("-t:%d", timeoutMs), fmt.Sprintf("-memory:%d", SolverMemoryMB)}
 	}
 }
 
@@ -76,6 +80,9 @@ func (s *Solver) Send(txt string) {
 	}
 }
 
+// Dead reports that the solver process is gone (killed, out of memory, broken pipe).
+func (s *Solver) Dead() bool { return s.dead }
+
 func (s *Solver) Close() {
 	if s.cmd != nil {
 		s.in.Close()
@@ -105,6 +112,10 @@ func (s *Solver) CheckSat() string {
 	var r string
 	for {
 		r = s.readLine()
+		if s.dead {
+			r = "unknown"
+			break
+		}
 		if r == "" {
 			continue
 		}
